@@ -7,12 +7,15 @@ package worlds
 import (
 	"io"
 	"log/slog"
+	"net"
 	"runtime/debug"
 	"strings"
-	"sync"
+	gosync "sync"
 
 	"github.com/prometheus/client_golang/prometheus"
 
+	"example.com/scion-time/core/client"
+	"example.com/scion-time/core/sync"
 	"example.com/scion-time/core/timebase"
 
 	"verif.local/sim/simclock"
@@ -21,11 +24,16 @@ import (
 
 // RootHooks are functions of the repository's root package (package main) that
 // the worlds use for the real wiring; they are filled in by zz_verif_main_test.go.
-type RootHooks struct{}
+type RootHooks struct {
+	ConfigureIPClientNTS   func(c *client.IPClient, ntskeServer string, insecureSkipVerify bool, log *slog.Logger)
+	NewNTPReferenceClockIP func(log *slog.Logger, localAddr, remoteAddr *net.UDPAddr, dscp uint8, authModes []string,
+		ntskeServer string, insecureSkipVerify bool) client.ReferenceClock
+	DefaultSyncConfig func() sync.Config
+}
 
 var Root RootHooks
 
-var registerOnce sync.Once
+var registerOnce gosync.Once
 
 // registerClock installs the dispatching clock (timebase accepts one per process).
 func registerClock() {
